@@ -131,6 +131,7 @@ Inductive op :=
 | ScoreIndex (s : nat) (i : nat)              (* s[i]: the chord object itself *)
 | ScoreSlice (s : nat) (i j : nat)            (* s[i:j]: fresh copies of all chords but the last, which is SHARED *)
 | ScoreMap (s : nat) (u : upd)                (* s.copy(), s.to_score(), s.set_amp(a): fresh copies *)
+| ScoreRepeat (s : nat) (k : nat)             (* s * k: k fresh copies of every chord, one after the other (also for k = 1) *)
 | EditFirstNotes (s : nat) (vals : list (list (Z * Z))). (* VoiceLeading.get_score: copy the score, then ASSIGN val/octave of the
                                                             first note of each part of the copy (one (val, octave) per part) *)
 
@@ -228,6 +229,14 @@ Definition step_heap (h : heap) (o : op) : option (heap * nat) :=
                     | Some (CScore cs) => do x <- copy_chords h u cs ;; Some (alloc (fst x) (CScore (snd x)))
                     | _ => None
                     end
+  | ScoreRepeat s k =>
+      (* sum([self.copy() for i in range(k)], None): every operand of the sum is a fresh copy and every partial sum copies again, so
+         the result holds k independent fresh copies of each chord and shares nothing with s - for k = 1 (None + copy = a copy of the
+         copy) as for the others; k = 0 gives an empty score *)
+      match get h s with
+      | Some (CScore cs) => do x <- copy_chords h UCopy (concat (repeat cs k)) ;; Some (alloc (fst x) (CScore (snd x)))
+      | _ => None
+      end
   | EditFirstNotes s vss =>
       match get h s with
       | Some (CScore cs) => do x <- copy_chords h UCopy cs ;;
@@ -259,6 +268,7 @@ Definition resolve (pl : list nat) (o : op) : option op :=
   | ScoreIndex s i => do s' <- ad s ;; Some (ScoreIndex s' i)
   | ScoreSlice s i j => do s' <- ad s ;; Some (ScoreSlice s' i j)
   | ScoreMap s u => do s' <- ad s ;; Some (ScoreMap s' u)
+  | ScoreRepeat s k => do s' <- ad s ;; Some (ScoreRepeat s' k)
   | EditFirstNotes s vss => do s' <- ad s ;; Some (EditFirstNotes s' vss)
   end.
 
